@@ -122,13 +122,13 @@ def run(ctx):
                     sxy = [[int((X[:, a] * X[:, b]).sum()) for b in range(d)] for a in range(d)]
                     div = n if biased else n - 1
                     mean = [Fraction(sx[a], n) for a in range(d)]
-                    cov = [[(Fraction(sxy[a][b]) - Fraction(sx[a] * sx[b], n)) / div for b in range(d)] for a in range(d)]
+                    cov_x = [[(Fraction(sxy[a][b]) - Fraction(sx[a] * sx[b], n)) / div for b in range(d)] for a in range(d)]
                     gm, gc = np.atleast_1d(c.stacked_data_mean), np.atleast_2d(c.empirical_covariance)
                     if not all(close(gm[a], mean[a]) for a in range(d)):
                         ctx.violation("monitor", "mean of a cluster of %d windows is not the mean of all its windows" % n, {"case": case})
-                    elif not all(close(gc[a, b], cov[a][b], 1e-9) for a in range(d) for b in range(d)):
+                    elif not all(close(gc[a, b], cov_x[a][b], 1e-9) for a in range(d) for b in range(d)):
                         ctx.violation("monitor", "covariance of a cluster of %d windows is not the %s sample covariance of all its windows (got %r, exact %r)"
-                                      % (n, "biased" if biased else "unbiased", float(gc[0, 0]), float(cov[0][0])), {"case": case})
+                                      % (n, "biased" if biased else "unbiased", float(gc[0, 0]), float(cov_x[0][0])), {"case": case})
         # (b) traced runs
         runs = e2e.cached_runs(ctx, e2e.standard_grid(ctx.seed, ctx.thorough), "std")
         runs.append(e2e.traced_run({"N": 2, "W": 2, "K": 2, "beta": 1.0, "lengths": [30], "limit": 2, "m": 1, "data_seed": 1, "rng_seed": 1, "joint": False}))
